@@ -465,6 +465,22 @@ var genScenarios = map[string]func(g *Gen) []scriptStep{
 		}
 		return s
 	},
+	// snapshot names are global: a name taken through a subscription of one topic is taken for a
+	// subscription of another topic too (C12)
+	"snapshot-name-cross-topic": func(g *Gen) []scriptStep {
+		return []scriptStep{
+			opStep(&Op{Kind: "CreateTopic", Name: sT0}), opStep(&Op{Kind: "CreateTopic", Name: sT1}),
+			subStep(&SubReq{Name: sS0, Topic: sT0}), subStep(&SubReq{Name: sS1, Topic: sT1}),
+			opStep(&Op{Kind: "CreateSnap", Name: "projects/p/snapshots/n0", Name2: sS0}),
+			opStep(&Op{Kind: "CreateSnap", Name: "projects/p/snapshots/n0", Name2: sS1}),
+			opStep(&Op{Kind: "CreateSnap", Name: "projects/p/snapshots/n0", Name2: sS0}),
+			opStep(&Op{Kind: "GetSnap", Name: "projects/p/snapshots/n0"}),
+			opStep(&Op{Kind: "DeleteSnap", Name: "projects/p/snapshots/n0"}),
+			opStep(&Op{Kind: "CreateSnap", Name: "projects/p/snapshots/n0", Name2: sS1}),
+			opStep(&Op{Kind: "GetSnap", Name: "projects/p/snapshots/n0"}),
+			opStep(&Op{Kind: "ListSnaps", Project: "projects/p", Size: 100}),
+		}
+	},
 	"dl-self-loop": func(g *Gen) []scriptStep {
 		return []scriptStep{
 			opStep(&Op{Kind: "CreateTopic", Name: sT0}),
@@ -882,7 +898,7 @@ func scenariosFor(profile string) []string {
 	case "seek":
 		return []string{"seek-revive-late", "ordered-chain", "snapshot-bystander", "snapshot-bystander-rev", "ordered-replay", "seek-retention", "snapshot-sibling-acks", "seek-delayed", "ordered-dl-seek"}
 	case "names":
-		return []string{"idle-expired-live", "topic-recreated", "recreated-twice"}
+		return []string{"idle-expired-live", "topic-recreated", "recreated-twice", "snapshot-name-cross-topic"}
 	case "config":
 		return []string{"filter-replaced", "idle-expired-live", "config-reset-each-field", "filter-literals", "ttl-raised", "seek-retention", "retry-replaced", "subsecond-durations"}
 	case "c15":
